@@ -13,8 +13,12 @@ from typing import Any, Callable, Dict, List, Optional
 from .symx import Cex, Stats
 
 ROOT = os.path.dirname(os.path.dirname(os.path.abspath(__file__)))
-EVIDENCE_DIR = os.path.join(ROOT, "evidence")
-REPLAY_DIR = os.path.join(ROOT, "replays")
+# VERIF_OUT redirects evidence and replay files (used by tools/matrix.py so that runs against seeded changes in scratch
+# worktrees do not overwrite the evidence of the real tree); VERIF_REPO names the netqasm tree under check (default /repo)
+_OUT = os.environ.get("VERIF_OUT") or ROOT
+EVIDENCE_DIR = os.path.join(_OUT, "evidence")
+REPLAY_DIR = os.path.join(_OUT, "replays")
+REPO = os.environ.get("VERIF_REPO") or "/repo"
 KNOWN_FILE = os.path.join(ROOT, "known_findings.json")
 
 EXIT_OK, EXIT_VIOLATION, EXIT_INCONCLUSIVE = 0, 1, 2
@@ -285,7 +289,7 @@ def pmap(fn: Callable[[Any], dict], items: List[Any], procs: Optional[int] = Non
         return out
 
 
-def trace_functions(fn: Callable[[], Any], prefix: str = "/repo/netqasm/") -> set:
+def trace_functions(fn: Callable[[], Any], prefix: str = REPO.rstrip("/") + "/netqasm/") -> set:
     """names of the repository functions executed by fn() (what was 'encoded' by proxy execution)"""
     seen = set()
 
@@ -294,7 +298,7 @@ def trace_functions(fn: Callable[[], Any], prefix: str = "/repo/netqasm/") -> se
             co = frame.f_code
             fnm = co.co_filename
             if fnm.startswith(prefix):
-                seen.add(fnm[len("/repo/"):-3].replace("/", ".") + ":" + co.co_qualname)
+                seen.add(fnm[len(REPO.rstrip("/")) + 1:-3].replace("/", ".") + ":" + co.co_qualname)
 
     old = sys.getprofile()
     sys.setprofile(prof)
